@@ -21,7 +21,8 @@ def handleRoute (l : Line) : List Verdict :=
     -- CORS preflight is answered by the middleware before routing reaches a handler: OPTIONS on an SSO server is not compared
     let skip := method == "OPTIONS" && c.ssoServer
     let diffs := if skip then [] else cmp "route" impl model ++ (if model != "src.Wildcard" then cmp "NoCache" nocache (mws.contains "chi_middleware.NoCache") else [])
-    let owned := prefixes.any fun p => underSubtree (p ++ "/oauth2") wire
+    -- (prefixes are the DECODED ingress paths; `rpath` is the path the router matches on - decoded unless the client used a non-canonical escaping)
+    let owned := prefixes.any fun p => underSubtree (p ++ "/oauth2") wire || underSubtree (p ++ "/oauth2") rpath
     let viol : List (String × String) :=
       (if owned && impl == "src.Wildcard" then [("C15.proxied_owned_path", s!"{method} {wire} reached the upstream proxy handler")] else []) ++
       (if owned && !nocache && impl != "src.Wildcard" && standardMethods.contains method then [("C15.cacheable", s!"{method} {wire} answered without no-store")] else [])
